@@ -80,12 +80,24 @@ impl io::Read for MemfsFile {
 // Implement the Seek trait for the MemfsFile
 impl io::Seek for MemfsFile {
     fn seek(&mut self, pos: io::SeekFrom) -> std::io::Result<u64> {
-        match pos {
-            io::SeekFrom::Start(offset) => self.pos = offset,
-            io::SeekFrom::Current(offset) => self.pos = (self.pos as i64 + offset) as u64,
-            io::SeekFrom::End(offset) => self.pos = (self.data.len() as i64 + offset) as u64,
+        let (base, offset) = match pos {
+            io::SeekFrom::Start(offset) => {
+                self.pos = offset;
+                return Ok(offset);
+            },
+            io::SeekFrom::Current(offset) => (self.pos, offset),
+            io::SeekFrom::End(offset) => (self.data.len() as u64, offset),
+        };
+        match base.checked_add_signed(offset) {
+            Some(pos) => {
+                self.pos = pos;
+                Ok(pos)
+            },
+            None => Err(io::Error::new(
+                io::ErrorKind::InvalidInput,
+                "invalid seek to a negative or overflowing position",
+            )),
         }
-        Ok(self.pos)
     }
 }
 
